@@ -203,6 +203,9 @@ func (e *ZsimEtcd) Get(ctx context.Context, key string, opts ...clientv3.OpOptio
 	if e.GetDelay > 0 {
 		zsim.Sleep(e.GetDelay)
 	}
+	if err := ctx.Err(); err != nil {
+		return nil, err // like the real client: a request with a finished context fails with its error
+	}
 	if e.GetFaults > 0 {
 		e.GetFaults--
 		e.R.FaultFired("etcd-get-error")
